@@ -363,7 +363,7 @@ class G2:
                 if m in ORDER_FREE:
                     return ("SAFE", f".{m}() is order-insensitive", None)
                 if m in ("reduce", "fold"):
-                    cl = peel(par["args"][-1]) if par["args"] else {}
+                    cl = (closure_like(self.F, par["args"][-1]) or {}) if par["args"] else {}
                     op = commutative_closure(cl) if cl.get("k") == "Closure" else None
                     if op:
                         return ("SAFE", f".{m}() with the commutative operator {op}", None)
